@@ -5,6 +5,7 @@ A library is built from true molecules (cell, contig, site, strand, umi). Each m
 optionally soft clipped at the read start, with mismatches (MD/NM kept correct), named with the
 demultiplexer's k:v;k:v header (so the real QueryNameFlagger decodes them) and a unique id in CX.
 """
+import re
 import random as _random
 from vlib.sim.bam import revcomp
 
@@ -108,7 +109,7 @@ class FragSpec:
 
 def make_fragment(gen, r, rid, case_id, method, cell, contig, site, reverse, umi, frag_len, r1_len=40, r2_len=40,
                   clip=0, mismatches=0, motif_ok=True, cycle_shift=False, chic_trimmed=True, single_end=False,
-                  dup_flag=False, stale_tags=False, r2_mismatches=0, lib='LIB', mapq=60, qual=None, pretag=None, r2_indel=None):
+                  dup_flag=False, stale_tags=False, r2_mismatches=0, lib='LIB', mapq=60, qual=None, pretag=None, r2_indel=None, r1_indel=None):
     """Returns (records, truth) ; records are dicts for sim.bam.write_bam.
 
     site: NLA: coordinate of the C of CATG (both strands). CHIC: coordinate of the ligated base g.
@@ -186,6 +187,44 @@ def make_fragment(gen, r, rid, case_id, method, cell, contig, site, reverse, umi
         aln_ref, aln_read = ref[r1_start:r1_end], r1_seq
     md1, nm1 = md_nm(aln_ref, aln_read)
     md2, nm2 = md_nm(ref[r2_start:r2_end], r2_seq)
+    if r1_indel is not None and not clip and r1_len - r1_indel[1] - 8 >= 10:
+        # an insertion / deletion / skip inside read 1, at least 10 bases away from the end that was ligated: the first sequenced base and
+        # with it the cut site stay where they are, the other end of the alignment moves by the net length of the gap
+        kind_, k_ = r1_indel
+        j_ = r.randint(10, r1_len - k_ - 8)       # bases between the ligated end and the gap
+        if not reverse:
+            if kind_ == 'I':
+                ins = rand_dna(r, k_)
+                r1_seq = r1_seq[:j_] + ins + ref[r1_start + j_:r1_start + r1_len - k_]
+                r1_cigar = f'{j_}M{k_}I{r1_len - j_ - k_}M'
+                md1, nm1 = md_nm(ref[r1_start:r1_start + r1_len - k_], r1_seq[:j_] + r1_seq[j_ + k_:])
+                nm1 += k_
+                r1_end = r1_start + r1_len - k_
+            elif r1_start + r1_len + k_ <= clen:
+                dele = ref[r1_start + j_:r1_start + j_ + k_]
+                r1_seq = r1_seq[:j_] + ref[r1_start + j_ + k_:r1_start + r1_len + k_]
+                r1_cigar = f'{j_}M{k_}{kind_}{r1_len - j_}M'
+                ma, na = md_nm(ref[r1_start:r1_start + j_], r1_seq[:j_])
+                md1, nm1 = (f'{ma}^{dele}{r1_len - j_}', na + k_) if kind_ == 'D' else (str(int(ma) + r1_len - j_) if ma.isdigit() else ma + '0', na)
+                r1_end = r1_start + r1_len + k_
+        else:
+            if kind_ == 'I':
+                ins = rand_dna(r, k_)
+                ns = r1_end - (r1_len - k_)
+                r1_seq = ref[ns:r1_end - j_] + ins + r1_seq[r1_len - j_:]
+                r1_cigar = f'{r1_len - j_ - k_}M{k_}I{j_}M'
+                md1, nm1 = md_nm(ref[ns:r1_end], r1_seq[:r1_len - j_ - k_] + r1_seq[r1_len - j_:])
+                nm1 += k_
+                r1_start = r1_pos = ns
+            elif r1_end - (r1_len + k_) >= 0:
+                ns = r1_end - (r1_len + k_)
+                dele = ref[ns + r1_len - j_:ns + r1_len - j_ + k_]
+                tail = r1_seq[r1_len - j_:]
+                r1_seq = ref[ns:ns + r1_len - j_] + tail
+                r1_cigar = f'{r1_len - j_}M{k_}{kind_}{j_}M'
+                mb, nb = md_nm(ref[r1_end - j_:r1_end], tail)
+                md1, nm1 = (f'{r1_len - j_}^{dele}{mb}', nb + k_) if kind_ == 'D' else (mb, nb)
+                r1_start = r1_pos = ns
     r2_cigar = f'{r2_len}M'
     if r2_indel is not None and r2_len >= 24:
         kind_, k_ = r2_indel
@@ -233,7 +272,7 @@ def make_fragment(gen, r, rid, case_id, method, cell, contig, site, reverse, umi
     if method == 'nla' and (not motif_ok):
         valid = False
     truth = {'id': rid, 'cell': cell, 'sample': f'{lib}_{cell}', 'contig': name, 'site': expected_site, 'reverse': reverse, 'umi': umi,
-             'valid': valid, 'cycle_shift': cycle_shift, 'clip': clip, 'method': method, 'span': (min(r1_start, r2_start), max(r1_end, r2_end)),
+             'r1_gap': r1_indel if re.search('[IDN]', r1_cigar) else None, 'valid': valid, 'cycle_shift': cycle_shift, 'clip': clip, 'method': method, 'span': (min(r1_start, r2_start), max(r1_end, r2_end)),
              'r1': (r1_start, r1_end), 'r2': (r2_start, r2_end), 'single_end': single_end, 'trimmed': chic_trimmed, 'dup_flag': dup_flag,
              'key': (f'{lib}_{cell}', name, expected_site, reverse, umi)}
     return recs, truth
